@@ -567,7 +567,9 @@ def main():
         t = threading.Thread(target=work, args=(n,), name='host-%d' % n)
         t.start()
         t.join()
-    DATA['threads'] = sorted(type(t).__name__ for t in threading.enumerate())
+    # (the threads of this program and the placeholders python registers for unknown ones; not what else lives in the process)
+    DATA['threads'] = sorted(type(t).__name__ for t in threading.enumerate()
+                             if t.name.startswith('host-') or isinstance(t, threading._DummyThread) or t is threading.main_thread())
     out('teardown', len(DATA.get('closed', [])))
     return DATA['threads']
 ''', threads=True, only='C01')
